@@ -126,39 +126,79 @@ def changed(now, pristine):
     return now.shape != pristine.shape or not np.array_equal(now, pristine, equal_nan=True)
 
 
-def run_hht(F, A, e, mode, do_1d=True, seq=0):
+def run_hht(F, A, e, mode, do_1d=True, seq=0, fdtype=None):
     """Call the three public entry points one after the other ON THE SAME ARRAY OBJECTS (as an analysis script
     does: "the dense spectrum, its sparse form and the one-dimensional marginal spectrum" of one data set), in the
-    order `HHT_ORDERS[seq % 6]`, followed by a second dense and a second sparse call; after every call the arrays
-    are compared with a pristine copy. JSON-able result."""
+    order `HHT_ORDERS[seq % 6]`, followed by a dense call in the OTHER mode, a second dense and a second sparse call;
+    after every call the arrays are compared with a pristine copy. Every returned object is KEPT until the whole
+    sequence is over and then read once more (`held`): a spectrum the caller still holds must not change because
+    another spectrum was computed. `fdtype`: dtype of the frequency array handed in (default float64). JSON-able result."""
     from emd import spectra
     F0, A0, e0 = arr(F), arr(A), np.asarray(e, dtype=float)      # pristine: never handed to the implementation
     Fw, Aw, ew = F0.copy(), A0.copy(), e0.copy()                 # the caller's arrays: every call receives these
+    if fdtype is not None:
+        Fw = F0.astype(fdtype)
+        if not np.array_equal(Fw.astype(float), F0, equal_nan=True):
+            raise RuntimeError('harness: frequencies are not representable in %s' % fdtype)
+    kept = {}
 
-    def dense():
-        d = spectra.hilberthuang(Fw, Aw, ew, mode=mode)
+    def ser_dense(d):
         return {'shape': list(d.shape), 'v': np.asarray(d, dtype=float).ravel().tolist()}
 
-    def sparse():
-        s = spectra.hilberthuang(Fw, Aw, ew, mode=mode, return_sparse=True)
-        return {'shape': list(s.shape), 'data': np.asarray(s.data, dtype=float).tolist(),
-                'row': [int(v) for v in s.row], 'col': [int(v) for v in s.col],
+    def ser_sparse(s):
+        c = s if hasattr(s, 'row') and hasattr(s, 'col') else s.tocoo()     # "its sparse form": any scipy format
+        return {'shape': list(c.shape), 'data': np.asarray(c.data, dtype=float).tolist(),
+                'row': [int(v) for v in c.row], 'col': [int(v) for v in c.col],
                 'toarray': np.asarray(s.toarray(), dtype=float).ravel().tolist()}
 
-    def oned():
-        d = spectra.hilberthuang_1d(Fw, Aw, ew, mode=mode)
-        return {'shape': list(d.shape), 'v': np.asarray(d, dtype=float).ravel().tolist()}
+    def dense(lab, md=mode):
+        kept[lab] = spectra.hilberthuang(Fw, Aw, ew, mode=md)
+        return ser_dense(kept[lab])
 
-    fns = {'dense': dense, 'sparse': sparse, 'oned': oned}
+    def sparse(lab):
+        kept[lab] = spectra.hilberthuang(Fw, Aw, ew, mode=mode, return_sparse=True)
+        return ser_sparse(kept[lab])
+
+    def oned(lab):
+        kept[lab] = spectra.hilberthuang_1d(Fw, Aw, ew, mode=mode)
+        return ser_dense(kept[lab])
+
+    fns = {'dense': dense, 'sparse': sparse, 'oned': oned,
+           'dense_other': lambda lab: dense(lab, 'amplitude' if mode == 'energy' else 'energy')}
     order = [nm for nm in HHT_ORDERS[seq % len(HHT_ORDERS)] if do_1d or nm != 'oned']
-    calls = [(nm, nm) for nm in order] + [('dense_again', 'dense'), ('sparse_again', 'sparse')]
+    calls = [(nm, nm) for nm in order] + [('dense_other', 'dense_other'), ('dense_again', 'dense'), ('sparse_again', 'sparse')]
     out = {'order': [lab for lab, _ in calls], 'modified': {}}
     for lab, nm in calls:
-        out[lab] = _guard(fns[nm])
+        out[lab] = _guard(lambda: fns[nm](lab))
         for arg, now, pristine in (('infr', Fw, F0), ('inam', Aw, A0), ('freq_edges', ew, e0)):
             if arg not in out['modified'] and changed(now, pristine):
                 out['modified'][arg] = lab
+    # the results the caller still holds, read again after the whole sequence
+    out['held'] = {}
+    for lab, obj in kept.items():
+        if 'error' in out[lab]:
+            continue
+        now = _guard(lambda: ser_sparse(obj) if lab.startswith('sparse') else ser_dense(obj))
+        if now != out[lab] and not _same_nan(now, out[lab]):
+            out['held'][lab] = now
     return out
+
+
+def _same_nan(a, b):
+    """equality of two serialised results that treats NaN cells as equal"""
+    if set(a) != set(b) or a.get('shape') != b.get('shape'):
+        return False
+    for k in a:
+        if k == 'shape':
+            continue
+        x, y = a[k], b[k]
+        if not isinstance(x, list) or not isinstance(y, list) or len(x) != len(y):
+            if x != y:
+                return False
+            continue
+        if any(not (p == q or (p != p and q != q)) for p, q in zip(x, y)):
+            return False
+    return True
 
 
 def hht_ops(F, A, e, mode, do_1d=True, name=None):
@@ -177,18 +217,25 @@ def _same(impl_vals, model_vals):
     return len(impl_vals) == len(mv) and all(proto.fr(a) == b for a, b in zip(impl_vals, mv))
 
 
-def hht_compare(out, results, do_1d=True):
+def hht_compare(out, results, do_1d=True, outside=False):
     """Exact correspondence of dense, sparse triplets (as a multiset: the storage order of COO triplets is not
-    observable through the matrix they denote) and the 1-D spectrum."""
+    observable through the matrix they denote) and the 1-D spectrum.  Where the model refuses an input the
+    implementation must refuse it too - with ANY exception (the property fixes no exception class).  `outside`: the
+    input is outside the property's quantifier (malformed shapes / edges, NaN frequencies, vector input): a difference
+    in whether it is refused at all is not judged (skip)."""
     r = results[0]
     d, s = out['dense'], out['sparse']
     if r.status == 'err':
         kind = r.words[0]
         for nm, o in (('dense', d), ('sparse', s)):
-            if o.get('error') != kind:
-                return 'model: err %s; implementation %s: %s' % (kind, nm, o.get('error', 'returned a value'))
+            if 'error' not in o:
+                if outside:
+                    return 'skip:input outside the quantifier: the model refuses it (%s), the implementation returns a value' % kind
+                return 'model: err %s; implementation %s: returned a value' % (kind, nm)
     elif r.ok:
         if 'error' in d or 'error' in s:
+            if outside:
+                return 'skip:input outside the quantifier: the implementation refuses it (%s / %s), the model does not' % (d.get('error'), s.get('error'))
             return 'model returns a spectrum; implementation raised %s / %s' % (d.get('error'), s.get('error'))
         nb, T = int(r.args['nb']), int(r.args['T'])
         if d['shape'] != [nb, T] or s['shape'] != [nb, T]:
@@ -201,6 +248,8 @@ def hht_compare(out, results, do_1d=True):
             return 'sparse triplets differ: impl rows %s cols %s data %s; model %s' % (s['row'][:12], s['col'][:12], s['data'][:12], r.raw[:240])
         for lab, key in (('dense_again', 'v'), ('sparse_again', 'toarray')):
             o = out.get(lab)
+            if o is not None and 'error' in o and outside:
+                return 'skip:input outside the quantifier: the implementation refuses it (%s), the model does not' % o['error']
             if o is not None and ('error' in o or o['shape'] != [nb, T] or not _same(o[key], r.vecs[0])):
                 return '%s (call order %s) differs from the model: impl %s model %s' % (
                     lab, out.get('order'), o.get('error') or o[key][:24], r.raw[:200])
@@ -210,10 +259,14 @@ def hht_compare(out, results, do_1d=True):
         r = results[1]
         o = out['oned']
         if r.status == 'err':
-            if o.get('error') != r.words[0]:
-                return 'model 1d: err %s; implementation: %s' % (r.words[0], o.get('error', 'returned a value'))
+            if 'error' not in o:
+                if outside:
+                    return 'skip:input outside the quantifier: the model refuses it (%s), the 1-D implementation returns a value' % r.words[0]
+                return 'model 1d: err %s; implementation: returned a value' % r.words[0]
         elif r.ok:
             if 'error' in o:
+                if outside:
+                    return 'skip:input outside the quantifier: the 1-D implementation refuses it (%s), the model does not' % o['error']
                 return 'model returns a 1-D spectrum; implementation raised %s' % o['error']
             if o['shape'] != [int(r.args['nb']), int(r.args['M'])]:
                 return '1d shape: impl %s model %s' % (o['shape'], r.raw[:60])
@@ -258,9 +311,22 @@ def modified_failures(out):
             for arg, lab in sorted((out.get('modified') or {}).items())]
 
 
+def nonliteral(fs):
+    """mark failures as mechanism-level (never a property violation on their own)"""
+    for f in fs:
+        f.literal = False
+    return fs
+
+
+def hht_outside_quantifier(ndim, F):
+    """inputs the quantifier ("frequency/amplitude arrays [time x IMFs]", finite or out-of-range frequencies) does not cover"""
+    return ndim != 2 or bool(np.isnan(F).any())
+
+
 def hht_holds(F, A, e, mode, out, do_1d=True):
     F = arr(F)
     A = arr(A)
+    F_in_ndim = F.ndim
     if F.ndim == 1:
         F = F[:, None]
     if A.ndim == 1:
@@ -268,15 +334,21 @@ def hht_holds(F, A, e, mode, out, do_1d=True):
     e = [float(v) for v in e]
     T, M = F.shape
     nb = len(e) - 1
-    fs = modified_failures(out)
+    # the property does not speak about side effects on the caller's arrays: mechanism-level only (what they do to
+    # the spectra is judged literally by the *-repeat-ne-bruteforce / *-held-result-changed kinds below)
+    fs = nonliteral(modified_failures(out))
     d, s = out['dense'], out['sparse']
     again = [(lab, out[lab]) for lab in ('dense_again', 'sparse_again') if lab in out]
-    for nm, o in (('dense', d), ('sparse', s)) + ((('1d', out['oned']),) if do_1d else ()) + tuple(again):
+    other = out.get('dense_other')
+    for nm, o in (('dense', d), ('sparse', s)) + ((('1d', out['oned']),) if do_1d else ()) + tuple(again) + (
+            (('dense_other', other),) if other is not None else ()):
         if 'error' in o:
             fs.append(Failure('raises:%s:%s' % (nm, o['error']), o.get('msg', '')))
     if any(f.kind.startswith('raises:') for f in fs):
+        if hht_outside_quantifier(F_in_ndim, F):
+            return []       # NaN frequencies / vector input are not in the quantifier: an error there is not judged (tagged)
         return fs
-    fs += edges_assumption(e)
+    fs += nonliteral(edges_assumption(e))       # hypothesis of the theorems about define_hist_bins, not C10's words
     exp_d, exp_1, total = brute_hht(F, A, e, mode)
     flat_d = [v for row in exp_d for v in row]
     if d['shape'] != [nb, T]:
@@ -328,6 +400,22 @@ def hht_holds(F, A, e, mode, out, do_1d=True):
                               'calls on the same arrays in the order %s, freqs %s amps %s edges %s mode %s: the repeated call gives %s '
                               '(total %r), the per-sample histogram of the data is %s (total %r)' % (
                                   out.get('order'), F.tolist()[:8], A.tolist()[:8], e, mode, got[:20], sum(got), flat_d[:20], total)))
+    # a dense call in the other mode on the same arrays (held by the caller while the remaining calls are made)
+    if other is not None:
+        omode = 'amplitude' if mode == 'energy' else 'energy'
+        exp_o = [v for row in brute_hht(F, A, e, omode)[0] for v in row]
+        if other['shape'] != [nb, T] or other['v'] != exp_o:
+            fs.append(Failure('dense-other-mode-ne-bruteforce', 'calls on the same arrays in the order %s, freqs %s amps %s edges %s: the '
+                              'mode=%s call gives %s, the per-sample histogram is %s' % (
+                                  out.get('order'), F.tolist()[:8], A.tolist()[:8], e, omode, other.get('v', [])[:20], exp_o[:20])))
+    # spectra returned earlier and still held by the caller, read again after the later calls
+    for lab, now in sorted((out.get('held') or {}).items()):
+        key = 'toarray' if lab.startswith('sparse') else 'v'
+        fs.append(Failure('%s-held-result-changed' % ('sparse' if lab.startswith('sparse') else '1d' if lab == 'oned' else 'dense'),
+                          'calls on the same arrays in the order %s, freqs %s amps %s edges %s mode %s: the spectrum returned by the %s call '
+                          'was %s; after the later calls the same returned object reads %s, which is no longer the per-sample histogram '
+                          'of the data it was computed from' % (out.get('order'), F.tolist()[:8], A.tolist()[:8], e, mode, lab,
+                                                                 out[lab].get(key, [])[:20], (now.get(key) or now.get('error') or [])[:20])))
     if do_1d:
         o = out['oned']
         flat_1 = [v for row in exp_1 for v in row]
